@@ -182,7 +182,7 @@ pub fn par1_plans(th: bool, mode: Mode, cache_only: bool) -> Vec<Plan> {
     if !heavy { p.push(mk("KPH-0", variants_kp(), !th, None)); }
     // three decisions per state: the first layer below a sub-problem root is wider than width 2, so the restricted diagram drops
     // a branch which the relaxed diagram of the same sub-problem keeps exact (seeded change C02r6)
-    if !th && !heavy { p.push(mk("TM-N3.1", variants_ca(), false, None)); }
+    if !th && !heavy { p.push(mk("TM-N3.1", variants_ca().into_iter().filter(|v| v.dom == Dom::Off).collect(), false, None)); }
     if th { p.push(mk("TM-N2.1", variants_ca(), true, None)); p.push(mk("TM-N3.1", variants_ca(), heavy, None)); p.push(mk("KP-5", variants_kp(), true, Some(if heavy { 5000 } else { 60000 }))); }
     p
 }
@@ -290,7 +290,7 @@ fn c02(tier: &str) -> i32 {
     // input dimension of the parallel solver: one worker (deterministic) over the bounded-exhaustive families, uninterrupted and
     // with the cut-off at every poll, every run judged by the same solution oracle (seeded change C02r6: the parallel solver
     // took the decisions of the relaxed diagram's best path, the value stayed right: input dependent, not schedule dependent)
-    let (a1, s1, c1) = run_plans(&rep, &["C02"], &par1_plans(th, Mode::Plain, false), deadline(&rep, 8, 300));
+    let (a1, s1, c1) = run_plans(&rep, &["C02"], &par1_plans(th, Mode::Plain, false), deadline(&rep, 22, 300));
     let mut cutp = par1_plans(th, Mode::Cutoffs, false);
     for p in cutp.iter_mut() { p.limit = Some(p.limit.unwrap_or(u64::MAX).min(if th { 2000 } else { 150 })); }
     let (a2, s2, c2) = run_plans(&rep, &["C02"], &cutp, deadline(&rep, 6, 300));
